@@ -366,7 +366,7 @@ Proof.
   induction fs as [|x r IH]; intros D Hv H df Hin; cbn [J5sConvert.cv_files] in H.
   - inversion H. subst. destruct Hin.
   - destruct x as [j|p].
-    + apply obind_ok in H. destruct H as (a & Ea & H). apply obind_ok in H. destruct H as (c & Ec & H).
+    + destruct (file_lists_ok j) eqn:Elists; [|discriminate]. apply obind_ok in H. destruct H as (a & Ea & H). apply obind_ok in H. destruct H as (c & Ec & H).
       inversion H. subst D. apply in_app_or in Hin. destruct Hin as [Hin|Hin].
       * eapply cv_file_links; [apply Hv; left; reflexivity|exact Ea|exact Hin].
       * eapply IH; [intros f Hf; apply Hv; right; exact Hf|exact Ec|exact Hin].
@@ -528,7 +528,7 @@ Qed.
 Theorem compile_correct bd pkg :
   valid_bundle snake camel screaming bd = true -> (exists f, In f bd /\ bfile_pkg f = pkg) ->
   exists D, compile_package snake camel screaming bd pkg = Ok D /\
-            package_contract snake camel screaming true bd pkg D.
+            package_contract snake camel screaming bd pkg D.
 Proof.
   intros Hv Hex. destruct (compile_total bd pkg Hv Hex) as [D HD]. exists D. split; [exact HD|].
   apply compile_sound. exact HD.
